@@ -321,7 +321,7 @@ func runProve(po proveOpts) (res proveResult) {
 	}
 	toolErrors := 0
 	vacuityBad := 0
-	var retried []string
+	retried := []string{}
 	crossConfirmed := 0
 	replayDir := filepath.Join(verifRoot, "replay", prop)
 	for _, v := range verifiers {
@@ -504,7 +504,7 @@ func runProve(po proveOpts) (res proveResult) {
 			"solver_ms":                solverMs,
 			"discharged_only_in_retry": retried,
 			"cross_confirmed_by_second_solver": crossConfirmed,
-			"backends":                 "z3-new 5.1.0 first (1.5 s), then z3-new, cvc5 1.0.3, z3 4.8.12 raced; first definite answer wins",
+			"backends": "z3-new 5.1.0 first (1.5 s), then z3-new (two strategies), cvc5 1.0.3, z3 4.8.12 raced; first definite answer wins; undecided obligations retried alone with twice the budget",
 			"timeout_ms":               timeout,
 			"explanation":              "every obligation is generated from /repo's current source by symbolic execution of the real function bodies against the contracts in zz_verif_contracts.go; callees are replaced by their contracts",
 			"bounded":                  []string{},
